@@ -405,6 +405,31 @@ func (ts *TermStore) Eq(a, b *Term) *Term {
 
 func (ts *TermStore) Ne(a, b *Term) *Term { return ts.Not(ts.Eq(a, b)) }
 
+// liftIte applies f to the constant leaves of an ite tree (at most 64 leaves);
+// ok is false when t is not such a tree.
+func (ts *TermStore) liftIte(t *Term, f func(*Term) *Term) (*Term, bool) {
+	n := 0
+	var check func(t *Term) bool
+	check = func(t *Term) bool {
+		if t.op == "ite" {
+			return check(t.args[1]) && check(t.args[2])
+		}
+		n++
+		return t.isInt() && n <= 64
+	}
+	if t.op != "ite" || !check(t) {
+		return nil, false
+	}
+	var rec func(t *Term) *Term
+	rec = func(t *Term) *Term {
+		if t.op == "ite" {
+			return ts.Ite(t.args[0], rec(t.args[1]), rec(t.args[2]))
+		}
+		return f(t)
+	}
+	return rec(t), true
+}
+
 // ---------- Int arithmetic ----------
 //
 // Sums are kept in a canonical linear form: op "lin" with atoms in args,
@@ -515,6 +540,16 @@ func (ts *TermStore) Add(a, b *Term) *Term {
 	if b.isInt() && b.ival.Sign() == 0 {
 		return a
 	}
+	if b.isInt() {
+		if r, ok := ts.liftIte(a, func(x *Term) *Term { return ts.Add(x, b) }); ok {
+			return r
+		}
+	}
+	if a.isInt() {
+		if r, ok := ts.liftIte(b, func(x *Term) *Term { return ts.Add(a, x) }); ok {
+			return r
+		}
+	}
 	le := ts.linOf(a)
 	le.addScaled(ts.linOf(b), bigOne)
 	return ts.fromLin(le)
@@ -525,6 +560,16 @@ func (ts *TermStore) Neg(a *Term) *Term { return ts.Sub(ts.Int(0), a) }
 func (ts *TermStore) Sub(a, b *Term) *Term {
 	if b.isInt() && b.ival.Sign() == 0 {
 		return a
+	}
+	if b.isInt() {
+		if r, ok := ts.liftIte(a, func(x *Term) *Term { return ts.Sub(x, b) }); ok {
+			return r
+		}
+	}
+	if a.isInt() {
+		if r, ok := ts.liftIte(b, func(x *Term) *Term { return ts.Sub(a, x) }); ok {
+			return r
+		}
 	}
 	le := ts.linOf(a)
 	le.addScaled(ts.linOf(b), big.NewInt(-1))
@@ -569,11 +614,20 @@ func (ts *TermStore) linCoef(t, v *Term) (*big.Int, *Term) {
 // Div is SMT-LIB integer division (floor for positive divisor). Callers that
 // need Go's truncating division build it with ite.
 func (ts *TermStore) Div(a, b *Term) *Term {
+	if b.isInt() && b.ival.Sign() > 0 {
+		if r, ok := ts.liftIte(a, func(x *Term) *Term { return ts.Div(x, b) }); ok {
+			return r
+		}
+	}
 	if a.isInt() && b.isInt() && b.ival.Sign() > 0 {
 		q := new(big.Int)
 		m := new(big.Int)
 		q.DivMod(a.ival, b.ival, m) // Euclidean
 		return ts.BigInt(q)
+	}
+	// floor((floor(x/c1))/c2) = floor(x/(c1*c2)) for positive constants
+	if b.isInt() && b.ival.Sign() > 0 && a.op == "div" && a.args[1].isInt() && a.args[1].ival.Sign() > 0 {
+		return ts.Div(a.args[0], ts.BigInt(new(big.Int).Mul(a.args[1].ival, b.ival)))
 	}
 	if b.isInt() && b.ival.Cmp(bigOne) == 0 {
 		return a
@@ -599,6 +653,11 @@ func (ts *TermStore) Div(a, b *Term) *Term {
 }
 
 func (ts *TermStore) Mod(a, b *Term) *Term {
+	if b.isInt() && b.ival.Sign() > 0 {
+		if r, ok := ts.liftIte(a, func(x *Term) *Term { return ts.Mod(x, b) }); ok {
+			return r
+		}
+	}
 	if a.isInt() && b.isInt() && b.ival.Sign() > 0 {
 		m := new(big.Int)
 		new(big.Int).DivMod(a.ival, b.ival, m)
@@ -611,6 +670,30 @@ func (ts *TermStore) Mod(a, b *Term) *Term {
 		// multiple of 2^k mod 2^j with j<=k is 0
 		if b.ival.TrailingZeroBits() < 200 && new(big.Int).Set(pow2(b.ival.TrailingZeroBits())).Cmp(b.ival) == 0 && a.tz >= b.ival.TrailingZeroBits() {
 			return ts.Int(0)
+		}
+		// drop multiples of the modulus from a linear form: (c + k*m + sum) mod m
+		if a.op == "lin" {
+			le := ts.linOf(a)
+			changed := false
+			nc := new(big.Int).Mod(le.c, b.ival)
+			if nc.Cmp(le.c) != 0 {
+				le.c = nc
+				changed = true
+			}
+			for at, k := range le.atoms {
+				nk := new(big.Int).Mod(k, b.ival)
+				if nk.Cmp(k) != 0 {
+					changed = true
+					if nk.Sign() == 0 {
+						delete(le.atoms, at)
+					} else {
+						le.atoms[at] = nk
+					}
+				}
+			}
+			if changed {
+				return ts.Mod(ts.fromLin(le), b)
+			}
 		}
 		// (mod (mod x m1) m2) where m2 | m1
 		if a.op == "mod" && a.args[1].isInt() {
@@ -1248,4 +1331,54 @@ func (s *Script) Render(logic string, getValues []*Term) string {
 		sb.WriteString("))\n")
 	}
 	return sb.String()
+}
+
+// divChainLemmas returns arithmetic tautologies that relate the quotients of
+// one term by a chain of constants c1 | c2 | ...:
+//   x div c1 = (x div c2) * (c2/c1) + ((x div c1) mod (c2/c1))
+// Solvers do not find these on their own; with them a radix decomposition
+// (shift/mask loops) becomes linear arithmetic. Being valid for all integers,
+// they may be added to any query.
+func (ts *TermStore) divChainLemmas(roots []*Term) []*Term {
+	byX := map[*Term][]*Term{}
+	seen := map[int]bool{}
+	var walk func(t *Term)
+	walk = func(t *Term) {
+		if seen[t.id] {
+			return
+		}
+		seen[t.id] = true
+		if t.op == "div" && t.args[1].isInt() && t.args[1].ival.Sign() > 0 && !t.bound {
+			byX[t.args[0]] = append(byX[t.args[0]], t)
+		}
+		for _, a := range t.args {
+			walk(a)
+		}
+	}
+	for _, r := range roots {
+		walk(r)
+	}
+	var out []*Term
+	var xs []*Term
+	for x := range byX {
+		xs = append(xs, x)
+	}
+	sort.Slice(xs, func(i, j int) bool { return xs[i].id < xs[j].id })
+	for _, x := range xs {
+		ds := byX[x]
+		sort.Slice(ds, func(i, j int) bool { return ds[i].args[1].ival.Cmp(ds[j].args[1].ival) < 0 })
+		for i := 0; i+1 < len(ds); i++ {
+			c1, c2 := ds[i].args[1].ival, ds[i+1].args[1].ival
+			q, r := new(big.Int).QuoRem(c2, c1, new(big.Int))
+			if r.Sign() != 0 || q.Cmp(bigOne) == 0 {
+				continue
+			}
+			qt := ts.BigInt(q)
+			rem := ts.intern(&Term{op: "mod", sort: SInt, args: []*Term{ds[i], qt}})
+			sum := ts.Add(ts.Mul(ds[i+1], qt), rem)
+			out = append(out, ts.mk("=", SBool, ds[i], sum))
+			out = append(out, ts.mk("and", SBool, ts.mk("<=", SBool, ts.Int(0), rem), ts.mk("<", SBool, rem, qt)))
+		}
+	}
+	return out
 }
